@@ -88,7 +88,7 @@ CLAIMS = {
              'predicted equalities/separations of state and output digests on random histories over all sampler classes.',
         note='MT19937 get/set_state exactness and stream quality are trusted; the decorator table is introspected by the '
              'harness; the former Univariate wrapper defect is kept as a counter-example theorem about the as-found table; Props/C15b: wrapper clause iff decorated (repaired vs as-found table), dataset row counts from a shape model tied every run by corr:dataset-shape',
-        tech='Lean 4 proof over an abstract generator-state machine + digest-pattern correspondence', ref='5 C15'),
+        tech='Lean 4 proof over an abstract generator-state machine + the random-state protocol (utils.set_random_state / random_state / validate_random_state, the three set_random_state methods, the 16-class sampler table) regenerated from the source by gen_rngscope and proved equal to the model in Props/C15c (tv:sampler-rows, tv:generated-step-vs-real) + digest-pattern correspondence', ref='5 C15'),
     'C05': dict(
         text='Lean 4 theorems for any candidate list over any bounded linear order of KS values (NaN and failures explicit): '
              'the selection fold returns a fittable minimiser (first one for strict <), none iff nothing is fittable; the '
